@@ -100,7 +100,8 @@ def _agreement(ctx: Ctx):
         if rng.random() < 0.25:
             f += " + " + rng.choice(["center(a)", "poly(b, 2)", "C(A, contr.sum)", "np.log(c*c + 1)", "a:C(B, contr.helmert)", "C(A)", "C(G)",
                                      "C(A, contr.diff(backward=False))", "C(G, contr.helmert(reverse=False, scale=True))", "C(B, contr.SAS):a",
-                                     "C(G, contr.poly)", "C(A, contr.treatment(base='y'))" if 'y' in set(frame.cat['A']) else "C(A, contr.diff)"])
+                                     "C(G, contr.poly)", "C(A, contr.treatment(base='y'))" if any(v == 'y' and all(col[k] is not None for col in list(frame.num.values()) + list(frame.cat.values()))
+                                                                              for k, v in enumerate(frame.cat['A'])) else "C(A, contr.diff)"])   # (the base level must survive the null rows)
         efr = rng.random() < 0.6
         na = rng.choice(["drop", "drop", "ignore"])
         df = frame.to_pandas()
